@@ -9,7 +9,8 @@
 //	  intervalMs  wakeupInterval of the pool's heartbeat in milliseconds
 //	  gates       (point ...)   gate points at which a goroutine is parked the first time it arrives
 //	              (pipeline.VgLmBeforeWait 20, VgStdBeforeWait 21, VgLmAfterInc 22, VgStdAfterCas 23);
-//	              a list item (1 avg) is not a gate: it sets the standard pool's avgEventSize (default 1024)
+//	              a list item (1 avg) is not a gate: it sets the standard pool's avgEventSize (default 1024);
+//	              a list item (2 tid) is not a gate either: only the goroutines named by such items are parked (default: all)
 //	  threads     ((op ...) ...)   script of goroutine i (thread id i+1, passed to get() as `size`, unless op 8 says otherwise)
 //	     op = (0)      get one event (blocks as the real pool blocks)
 //	          (1)      back the oldest event this goroutine holds (no-op when it holds none)
@@ -28,6 +29,10 @@
 //	                   CHECKS every event get() returns: Buf empty, Root decodes and reads back this goroutine's id
 //	                   (the harness main sets insane-json's StartNodePoolSize to the production value 16 so that the node-pool
 //	                   threshold 64 has both outcomes: pipedrv.UseProductionNodePool)
+//	          (10 k)   wait until the pool counts k waiters (slowWaiters >= k; gives up after 2 s)
+//	          (11)     release the goroutines parked now and KEEP parking (op 5 ends it)
+//	          (12 k)   announce phase k of the case (a counter shared by the goroutines of the case, never decreases)
+//	          (13 k)   wait until phase k was announced (gives up after 3 s)
 //
 //	observed = ((kind a b c) ...)   kind < 200: the hook labels, in the order the operations took effect;
 //	  200 tid eid   get returned (eid: object number in the standard pool, -1 in the low-memory pool)
@@ -44,6 +49,10 @@
 //	  216 tid ms    LATE WAKE-UP (only for intervalMs >= 200, i.e. the directed "prompt-wakeup" cases): get()
 //	                returned more than half a heartbeat period after capacity became free, i.e. the
 //	                goroutine was woken by the heartbeat and not by back()'s Broadcast
+//	  217 kind 0    HEARTBEAT GONE: at the end of the case the heartbeat was in the middle of an iteration (its last label,
+//	                `kind`, is not "iteration finished") and did not finish it within 250 ms although an iteration is a few
+//	                atomic loads: the goroutine returned or blocked.  The end-of-case record 213 is written only after the
+//	                iteration in progress, if any, has finished (or 217 was recorded)
 package pooldrv
 
 import (
@@ -51,6 +60,7 @@ import (
 	"runtime"
 	"strings"
 	"sync"
+	"sync/atomic"
 	"time"
 
 	"github.com/ozontech/file.d/pipeline"
@@ -69,6 +79,7 @@ const (
 	LPanic    = 214
 	LTimeout  = 215
 	LLateWake = 216
+	LHbGone   = 217
 
 	// StuckPeriods: a getter blocked for more than this many heartbeat periods with free capacity is stuck.
 	StuckPeriods = 20
@@ -80,14 +91,27 @@ type label struct {
 }
 
 type caseLog struct {
-	mu     sync.Mutex
-	labels []label
+	mu       sync.Mutex
+	labels   []label
+	tickOpen int // kind of the heartbeat's last label when it is in the middle of an iteration, else 0
 }
 
 func (l *caseLog) add(kind int, args ...int64) {
 	l.mu.Lock()
 	l.labels = append(l.labels, label{kind, args})
+	switch kind {
+	case pipeline.VpLmTickW, pipeline.VpLmTickA, pipeline.VpLmTickFire, pipeline.VpStdTickW, pipeline.VpStdTickA, pipeline.VpStdTickFire:
+		l.tickOpen = kind
+	case pipeline.VpLmTickEnd, pipeline.VpStdTickEnd:
+		l.tickOpen = 0
+	}
 	l.mu.Unlock()
+}
+
+func (l *caseLog) tickInProgress() int {
+	l.mu.Lock()
+	defer l.mu.Unlock()
+	return l.tickOpen
 }
 
 type caseState struct {
@@ -139,10 +163,16 @@ func RunCase(cs hx.Sx) hx.Sx {
 	interval := time.Duration(hx.Int(it[2])) * time.Millisecond
 	gatePoints := map[int]bool{}
 	avg, recycle := 1024, false
+	var parkOnly map[int64]bool
 	for _, g := range hx.Items(it[3]) {
 		if hx.IsList(g) {
 			if o := hx.Items(g); len(o) == 2 && hx.Int(o[0]) == 1 && hx.Int(o[1]) > 0 {
 				avg, recycle = int(hx.Int(o[1])), true
+			} else if len(o) == 2 && hx.Int(o[0]) == 2 {
+				if parkOnly == nil {
+					parkOnly = map[int64]bool{}
+				}
+				parkOnly[hx.Int(o[1])] = true
 			}
 			continue
 		}
@@ -207,7 +237,7 @@ func RunCase(cs hx.Sx) hx.Sx {
 	wasParked := map[int64]bool{}
 	st.gate = func(point int, tid int64) {
 		gm.Lock()
-		if !parking || !gatePoints[point] || wasParked[tid] {
+		if !parking || !gatePoints[point] || wasParked[tid] || (parkOnly != nil && !parkOnly[tid]) {
 			gm.Unlock()
 			return
 		}
@@ -244,6 +274,15 @@ func RunCase(cs hx.Sx) hx.Sx {
 		}
 		gm.Unlock()
 	}
+	releaseParked := func() {
+		gm.Lock()
+		if parking {
+			close(release)
+			release = make(chan struct{})
+		}
+		gm.Unlock()
+	}
+	var phase atomic.Int64
 
 	regMu.Lock()
 	registry[pool.Obj()] = st
@@ -365,6 +404,23 @@ func RunCase(cs hx.Sx) hx.Sx {
 					releaseAll()
 				case 6:
 					time.Sleep(time.Duration(hx.Int(o[1])) * time.Microsecond)
+				case 10:
+					for deadline := time.Now().Add(2 * time.Second); pool.Waiters() < hx.Int(o[1]) && time.Now().Before(deadline); {
+						time.Sleep(100 * time.Microsecond)
+					}
+				case 11:
+					releaseParked()
+				case 12:
+					for {
+						cur := phase.Load()
+						if cur >= hx.Int(o[1]) || phase.CompareAndSwap(cur, hx.Int(o[1])) {
+							break
+						}
+					}
+				case 13:
+					for deadline := time.Now().Add(3 * time.Second); phase.Load() < hx.Int(o[1]) && time.Now().Before(deadline); {
+						time.Sleep(100 * time.Microsecond)
+					}
 				case 9:
 					if len(mine) == 0 {
 						continue
@@ -463,6 +519,14 @@ func RunCase(cs hx.Sx) hx.Sx {
 	q := int64(0)
 	if allDone && h == 0 {
 		q = 1
+	}
+	// a heartbeat iteration is a few atomic loads: the one in progress, if any, finishes at once - unless the goroutine is gone
+	for deadline := time.Now().Add(250 * time.Millisecond); log.tickInProgress() != 0; {
+		if time.Now().After(deadline) {
+			log.add(LHbGone, int64(log.tickInProgress()), 0)
+			break
+		}
+		time.Sleep(50 * time.Microsecond)
 	}
 	log.add(LFinal, q, pool.InUse(), pool.RawInUse(), pool.Waiters(), int64(h))
 	pool.Stop()
